@@ -254,7 +254,17 @@ func Loops(fn *ssa.Function) []*Loop {
 				}
 			}
 		}
-		// counted loop: cond is i < len(x) (or i+1 < len in rotated form)
+		// counted loop: cond is i < len(x) (or i+1 < len in rotated form); the
+		// block must really be a loop header (target of a back edge)
+		isHeader := false
+		for _, p := range b.Preds {
+			if b.Dominates(p) {
+				isHeader = true
+			}
+		}
+		if !isHeader {
+			continue
+		}
 		bin, ok := iff.Cond.(*ssa.BinOp)
 		if !ok || bin.Op != token.LSS {
 			continue
